@@ -447,11 +447,13 @@ func decodeCompositParams(name string, value string, pattern string, names []str
 		vright := strings.Index(value, toskip)
 		if vright >= 0 {
 			values = append(values, value[:vright])
+			value = value[vright+len(toskip):]
 		} else {
+			// the text between the two placeholders does not occur in the value: nothing is left for the next fragment
 			values = append(values, "")
 			value = ""
 		}
-		return decodeCompositParams(pattern[pleft+1:pright], value[vright+len(toskip):], pattern[pright+1:], names, values)
+		return decodeCompositParams(pattern[pleft+1:pright], value, pattern[pright+1:], names, values)
 	}
 	return names, values
 }
